@@ -13,6 +13,10 @@
     roots and the primality test are recorded; Trace_ZRings.tla re-computes every result, checks the law instances on
     the recorded outputs, validates solutions BY SUBSTITUTION (t^+ t = xi, r^2 = a mod p) and decides primality by trial
     division.
+(P) PrimeCutGen.tla (spec -> code): the cut-off numbers of a trial-division screen - for every prime p up to a bound, the
+    products p*q with the next primes q >= p and their neighbours p*q + d, each with its primality decided by TLC (invariant
+    CutSound: the oracle agrees with the definition of primality) - are replayed into _primality_test; the products also
+    go through _prime_factorize and the norm equation of rational integers b^2 + d^2 (evidence / mechanism only).
 """
 import json
 import math
@@ -544,6 +548,61 @@ def matrix_events(rng, tier, stats):
     return evs
 
 
+# ----------------------------------------------------------------------------------------------- REPLAY of PrimeCutGen
+CUT_K, CUT_W, CUT_GAP, CUT_BW = 3, 2, 160, 64
+
+
+def generate_cutoffs(tier):
+    """TLC enumerates the numbers p*q + d (p prime <= PHI, q one of the CUT_K smallest primes >= p, |d| <= CUT_W) with their
+    primality and checks the oracle against the definition (CutSound): one JVM."""
+    consts = {"PLO": 2, "PHI": 4096 if tier == "quick" else 32768, "BW": CUT_BW, "K": CUT_K, "GAP": CUT_GAP, "W": CUT_W}
+    wd = lib.workdir(PID, "cut")
+    g = lib.run_tlc("PrimeCutGen", lib.cfg(constants=consts, invariants=["CutSound"]), wd, timeout=3000)
+    if g.invariant_violated:
+        raise lib.MachineryError(f"the trial-division oracle of PrimeCutGen.tla disagrees with the definition of primality "
+                                 f"({g.invariant_violated}): oracle error\n" + g.out[-1500:])
+    lib.require_ok(g, "PrimeCutGen")
+    g.out = ""
+    blocks = [r for r in g.json_lines if isinstance(r, dict) and r.get("kind") == "pc"]
+    nb = (consts["PHI"] - consts["PLO"]) // consts["BW"] + 1
+    if sorted(b["blk"] for b in blocks) != list(range(1, nb + 1)):
+        raise lib.MachineryError(f"PrimeCutGen emitted {len(blocks)} blocks, expected {nb}")
+    rows = [tuple(r) for b in sorted(blocks, key=lambda b: b["blk"]) for r in b["rows"]]
+    # completeness of the enumeration (machinery): every p has CUT_K values of q, every (p, q) all offsets, every prime is there
+    per_p = Counter()
+    for p, q in {(r[2], r[3]) for r in rows}:
+        per_p[p] += 1
+    want = [2] + [p for p in _small_primes(consts["PHI"] + 1)]
+    if sorted(per_p) != want or set(per_p.values()) != {CUT_K} or len(rows) != len(want) * CUT_K * (2 * CUT_W + 1):
+        raise lib.MachineryError(f"PrimeCutGen: incomplete enumeration ({len(per_p)} primes p of {len(want)}, q per p {sorted(set(per_p.values()))}, "
+                                 f"{len(rows)} rows); GAP too small?")
+    return g, consts, rows
+
+
+def _cmp_prime(agg, stats, n, flag, got, exc, p, q):
+    """One replayed cut-off number: _primality_test(n) must be the verdict TLC computed by trial division."""
+    stats["replayed"] += 1
+    if exc == "" and got == flag:
+        return True
+    key = "replay:primality:exception" if exc else "replay:primality:composite-declared-prime" if got else "replay:primality:prime-declared-composite"
+    agg.add(key, f"_primality_test({n}) {'raised ' + exc if exc else '= ' + str(bool(got))}, trial division (TLC) says "
+                 f"{'prime' if flag else 'composite'} [n = {p} * {q} {n - p * q:+d}]",
+            {"op": "nt.primality", "inputs": [n], "expected": flag, "got": exc or got, "p": p, "q": q})
+    return False
+
+
+def replay_cutoffs(rows, agg, stats, nontriv):
+    for n, flag, p, q in rows:
+        v, e = call(ns._primality_test, n)
+        ok = _cmp_prime(agg, stats, n, flag, 1 if (e == "" and v) else 0, e, p, q)
+        stats["cut_rows"] += 1
+        stats["cut_products" if n == p * q else "cut_neighbours_prime" if flag else "cut_neighbours_composite"] += 1
+        if ok and p > 100:                       # beyond any screen by the primes below 100
+            stats["cut_beyond_small_prime_table"] += 1
+            if n == p * q:
+                nontriv.add(("nt.cut", n))
+
+
 def _isqrt_bound(n):
     return math.isqrt(max(n, 0)) + 1
 
@@ -560,9 +619,10 @@ HARD_NUMBERS = [10403, 42799, 49141, 88357, 90751, 104653, 130561, 196093, 22072
                 32749 * 32719, 999999937, 1000000007, 1073741789]
 
 
-def number_theory_events(rng, tier, stats):
+def number_theory_events(rng, tier, stats, cut_rows=()):
     evs = []
-    top = 1 << 12 if tier == "quick" else 1 << 16
+    # exhaustive sweep: beyond 127^2, so that every number whose least prime factor is below 2^7 (2^8) is covered
+    top = 1 << 14 if tier == "quick" else 1 << 16
     for start in range(0, top, 256):
         flags = []
         for n in range(start, start + 256):
@@ -600,13 +660,16 @@ def number_theory_events(rng, tier, stats):
             evs.append(ev("nt.sqrtmod", x=[a, p], exc=e, out=[int(v)] if e == "" else []))
             stats["sqrtmod_root" if e == "" else "sqrtmod_none"] += 1
     # norm equations t^+ t = xi
-    def dioph(xi, wit):
+    def dioph(xi, wit, guard=True):
         v, e = call(ns._solve_diophantine, ZSqrtTwo(xi[0], xi[1]), limit=3)
         if e == "" and not isinstance(v, ZOmega):
             e = "NotZOmega"
         evs.append(ev("nt.dioph", x=xi, z=wit, exc=e, out=om(v) if e == "" else []))
         stats["dioph_solved" if e == "" else "dioph_" + e] += 1
-        if wit and e != "Skipped":
+        if wit and not guard:                     # not part of the vacuity guard (calibrated on the seeded family)
+            stats["dioph_rational_integers"] += 1
+            stats["dioph_rational_integers_solved"] += 1 if e == "" else 0
+        elif wit and e != "Skipped":
             stats["dioph_solvable"] += 1
             stats["dioph_solvable_solved"] += 1 if e == "" else 0
     amax = 32 if tier == "quick" else 120
@@ -622,8 +685,15 @@ def number_theory_events(rng, tier, stats):
         a = rng.randrange(1, 1 << 14)
         b = rng.randint(-int(a / math.sqrt(2)), int(a / math.sqrt(2)))
         dioph([a, b], [])
+    # rational integers xi = b^2 + d^2 = (d + b i)^+ (d + b i): the solver factorises xi over Z first (primes, prime squares)
+    gb = 11 if tier == "quick" else 40
+    for b in range(1, gb + 1):
+        for d in range(b, gb + 1):
+            dioph([b * b + d * d, 0], [0, b, 0, d], guard=False)
     # integer factorisation and the splitting of rational primes in Z[sqrt2] (mechanism: evidence only)
-    for n in list(range(2, 300)) + [rng.randrange(2, 1 << (16 if tier == "quick" else 20)) for _ in range(60 if tier == "quick" else 1000)]:
+    cut_products = [n for n, _, p, q in cut_rows if n == p * q and p <= (256 if tier == "quick" else 1024)]      # semiprimes p*q, squares p*p
+    stats["factorize_cut_products"] = len(cut_products)
+    for n in list(range(2, 300)) + [rng.randrange(2, 1 << (16 if tier == "quick" else 20)) for _ in range(60 if tier == "quick" else 1000)] + cut_products:
         v, e = call(lambda: ns._prime_factorize(n, 1000, False), limit=3)
         evs.append(ev("nt.factor", x=[n, _isqrt_bound(n)], exc=e, out=[int(f) for f in v] if e == "" else []))
     for p in [2] + _small_primes(300 if tier == "quick" else 2000):
@@ -719,6 +789,17 @@ def run(tier, seed):
         replay_om(r, hdr, agg, stats, nontriv)
     deferred = []
     replay_mat(rows["mat"], hdr, agg, stats, nontriv, deferred)
+    gc, cut_consts, cut_rows = generate_cutoffs(tier)
+    replay_cutoffs(cut_rows, agg, stats, nontriv)
+    # negative control of the primality comparator: the verdict of TLC for a product p*q (composite) is accepted against itself
+    # and rejected against the opposite answer, likewise for a prime neighbour
+    tmp = Agg()
+    prod = next(r for r in cut_rows if r[0] == r[2] * r[3] and r[2] > 100)
+    prim = next(r for r in cut_rows if r[1] == 1 and r[2] > 100)
+    if not (_cmp_prime(tmp, Counter(), prod[0], prod[1], 0, "", prod[2], prod[3]) and _cmp_prime(tmp, Counter(), prim[0], prim[1], 1, "", prim[2], prim[3])) \
+            or _cmp_prime(tmp, Counter(), prod[0], prod[1], 1, "", prod[2], prod[3]) or _cmp_prime(tmp, Counter(), prim[0], prim[1], 0, "", prim[2], prim[3]) \
+            or sorted(tmp.d) != ["replay:primality:composite-declared-prime", "replay:primality:prime-declared-composite"]:
+        raise lib.MachineryError(f"negative control of the primality comparator failed: {list(tmp.d)}")
     # negative control of the comparator (independent of the implementation): the reference value of a product is accepted
     # against itself and rejected against a copy with one coefficient changed
     tmp, row = Agg(), next(r for r in rows["om"] if r["x"] == [1, 2, -1, 2])
@@ -728,11 +809,11 @@ def run(tier, seed):
     if not _cmp(tmp, Counter(), "om.mul", good, "", list(good), "control", []) or _cmp(tmp, Counter(), "om.mul", good, "", bad, "control", []) \
             or list(tmp.d) != ["replay:om.mul"]:
         raise lib.MachineryError(f"negative control of the replay comparator failed: {list(tmp.d)}")
-    n_neg = 1
+    n_neg = 3
     t2 = time.time()
 
     events = (ring_events(rng, 120 if quick else 1500, 120 if quick else 1500, stats) + nonfunctional_events(rng, tier, stats)
-              + matrix_events(rng, tier, stats) + number_theory_events(rng, tier, stats) + deferred)
+              + matrix_events(rng, tier, stats) + number_theory_events(rng, tier, stats, cut_rows) + deferred)
     stats["replay_deferred_to_trace"] = len(deferred)
     stats["calls_skipped_after_timeouts"] = sum(1 for e in events if e["exc"] == "Skipped")
     events = [e for e in events if e["exc"] != "Skipped"]
@@ -797,11 +878,16 @@ def run(tier, seed):
     law = next((e for e in events if e["op"] == "om.law" and e["law"] == "assoc_mul"), None)
     if law:
         samples.append({"op": "(x*y)*z == x*(y*z) on ZOmega", "x": law["x"], "y": law["y"], "z": law["z"], "both_sides": law["out"]})
-    cov = {"states": g.distinct + r.distinct, "transitions": g.generated + r.generated,
+    cutp = next((r for r in cut_rows if r[0] == r[2] * r[3] and r[2] > 1000), None)
+    if cutp:
+        samples.append({"op": "_primality_test (replayed cut-off number)", "n": cutp[0], "least_prime_factor": cutp[2], "cofactor": cutp[3],
+                        "expected_prime": bool(cutp[1]), "decided_by": "PrimeCutGen.tla (trial division, invariant CutSound)"})
+    cov = {"states": g.distinct + gc.distinct + r.distinct, "transitions": g.generated + gc.generated + r.generated,
            "traces_validated_against_impl": n_real, "evaluations": stats["replayed"] + len(events),
            "distinct_nontrivial": len(nontriv),
            "rule": "distinct (operation, operands) whose result agreed with the reference, counted only for products / law instances / "
-                   "solver calls with non-degenerate operands (ring elements with >= 2 non-zero coefficients, words of length >= 2)",
+                   "solver calls with non-degenerate operands (ring elements with >= 2 non-zero coefficients, words of length >= 2), and "
+                   "replayed products p*q of two primes > 100 (beyond the small-prime screen) classified as TLC decided",
            "samples": samples, "exhaustive": True,
            "model": {"module": "ZRings / ZRingsGen", "invariants": INVARIANTS, "states": g.distinct, "constants": consts,
                      "zsqrt2_elements": n2, "zomega_elements": no, "zomega_pairs": no * (no + 1) // 2 if consts["BP"] == consts["BO"] else no * (2 * consts["BP"] + 1) ** 4,
@@ -809,6 +895,11 @@ def run(tier, seed):
            "replayed_operations": stats["replayed"], "replay_deferred_to_trace": stats["replay_deferred_to_trace"],
            "timeouts": dict(_TIMEOUTS), "calls_skipped_after_timeouts": stats["calls_skipped_after_timeouts"], "trace_events": len(events), "trace_events_by_op": dict(sorted(ops.items())),
            "trace_states": r.distinct,
+           "primality_cutoff": {"module": "PrimeCutGen", "invariants": ["CutSound"], "constants": cut_consts, "states": gc.distinct,
+                                "rows_replayed": stats["cut_rows"], "products_p_q": stats["cut_products"], "prime_neighbours": stats["cut_neighbours_prime"],
+                                "composite_neighbours": stats["cut_neighbours_composite"], "agreeing_rows_with_least_factor_above_100": stats["cut_beyond_small_prime_table"],
+                                "largest_n": max(r[0] for r in cut_rows), "products_sent_to_prime_factorize": stats["factorize_cut_products"],
+                                "rational_integer_norm_equations": stats["dioph_rational_integers"]},
            "primality_exhaustive_below": stats["primality_exhaustive_below"], "primality_big_numbers": stats["primality_big_numbers"],
            "primality_big_probable_primes": stats["primality_big_probable_primes"],
            "diophantine": {k[6:]: v for k, v in stats.items() if k.startswith("dioph_")},
@@ -816,7 +907,7 @@ def run(tier, seed):
            "s2_sqrt": {"replay_found": stats["s2_roots_found"], "replay_none": stats["s2_sqrt_none"], "trace_found": stats["sqrt_found"], "trace_none": stats["sqrt_none"]},
            "so3_homomorphism_instances": stats["so3_hom"], "truediv": {"exact": stats["truediv_exact"], "raised": stats["truediv_raised"]},
            "model_drift": dict(sorted(drift.items())), "negative_controls_rejected": n_neg, "positive_controls_accepted": len(pos),
-           "phase_wall_s": {"model_check_and_generate": round(g.wall_s, 1), "replay": round(t2 - t1, 1), "implementation_traces": round(t3 - t2, 1),
+           "phase_wall_s": {"model_check_and_generate": round(g.wall_s, 1), "cutoff_generate": round(gc.wall_s, 1), "replay": round(t2 - t1 - gc.wall_s, 1), "implementation_traces": round(t3 - t2, 1),
                             "trace_validation": round(r.wall_s, 1)}}
     return CheckResult(coverage=cov, violations=agg.violations(), assumptions=[
         "coefficients are bounded so that every intermediate stays below 2^30 (TLC integers are 32 bit; TLC reports overflow as an error): "
@@ -826,7 +917,10 @@ def run(tier, seed):
         "a matrix result must have the reference VALUE; the representation must be the canonical one (least denominator exponent) whenever that "
         "exponent is >= 0 (always the case for unitary matrices)",
         "SO(3) homomorphism is checked on Clifford+T words (unitary matrices), the ring laws of DyadicMatrix on general small matrices",
-        "primes for _sqrt_modulo_p are selected by the harness (trial division); primality of every tested number is decided by TLC"])
+        "primes for _sqrt_modulo_p are selected by the harness (trial division); primality of every tested number is decided by TLC",
+        "cut-off numbers of the primality test: least prime factor p <= PHI (quick 4096, thorough 32768), cofactor one of the 3 primes "
+        "following p (or p itself), offsets -2..2; composites whose two least prime factors are far apart are only met by the exhaustive "
+        "sweep (below 2^14 / 2^16) and the seeded numbers"])
 
 
 def replay(path, tier="quick", seed=0):
